@@ -429,4 +429,73 @@ example :
         some (old, [Str.ofString "export PATH='/my prod/bin:/bin'", Str.ofString "unset GONE"], 0) := by
   decide
 
+/-! ## the command line (`setupcmd.EupsSetup.run` behind `bin/eups_setup`) -/
+
+/-- **What the wrapper can print.**  Whatever the options, the file system facts and the outcome of the inner
+`try`: a run that ends with a non-zero status has printed nothing at all or the single line `false`; a run that ends
+with status 0 has printed nothing (`-h`, `-V`) or exactly the command list `eups.setup` returned, joined by `";\n"`,
+with the newline `print` adds — so the round-trip theorems above are about the text the shell really receives. -/
+theorem C05_cli_outcomes (c : Cli) (w : CliWorld) (inner : Inner) :
+    ((runCli c w inner).status ≠ 0 →
+        (runCli c w inner).stdout = none ∨ (runCli c w inner).stdout = some (sFalse ++ [10])) ∧
+      ((runCli c w inner).status = 0 →
+        (runCli c w inner).stdout = none ∨
+          ∃ cmds, inner = .returned cmds ∧ (runCli c w inner).stdout = some (join cmds ++ [10])) := by
+  have hearly : ∀ r, cliEarly c w = some r →
+      (r.status = 0 ∧ r.stdout = none) ∨ (r.status ≠ 0 ∧ (r.stdout = none ∨ r.stdout = some (sFalse ++ [10]))) := by
+    intro r hr
+    unfold cliEarly at hr
+    repeat' split at hr
+    all_goals first
+      | (cases hr; simp [cliFailed])
+      | cases hr
+  unfold runCli
+  cases he : cliEarly c w with
+  | some r =>
+    rcases hearly r he with ⟨h0, hn⟩ | ⟨h1, hs⟩
+    · exact ⟨fun h => absurd h0 h, fun _ => Or.inl hn⟩
+    · exact ⟨fun _ => hs, fun h => absurd h h1⟩
+  | none =>
+    simp only
+    cases inner with
+    | eupsException => simp [cliInner, cliFailed]
+    | otherException => simp [cliInner, cliFailed]
+    | returned cmds =>
+      simp only [cliInner]
+      split <;> simp
+
+/-- **A failed command line leaves the caller's shell untouched.**  For every option combination and every way the
+request can fail (usage errors, a missing table file, an undeclared version, `--just` with `--max-depth`, an
+exception of any kind): evaluating what was printed changes neither the environment nor the functions, and when
+something was printed at all the caller sees a failure. -/
+theorem C05_cli_failure_untouched (c : Cli) (w : CliWorld) (inner : Inner) (env funcs : Env)
+    (hfail : (runCli c w inner).status ≠ 0) :
+    ∃ r, shEvalF env funcs ((runCli c w inner).stdout.getD []) = some r ∧ r.sh.env = env ∧ r.funcs = funcs ∧
+      ((runCli c w inner).stdout ≠ none → r.status = 1) := by
+  rcases (C05_cli_outcomes c w inner).1 hfail with h | h
+  · refine ⟨startF env funcs, ?_, rfl, rfl, fun hn => absurd h hn⟩
+    simp [h, shEvalF, feedF_nil, finishF, startF, stepF, clean, endWord]
+  · obtain ⟨r, hr, h1, h2, _, h4⟩ := C05_failure_reports_false env funcs true
+    refine ⟨r, ?_, h1, h2, fun _ => h4⟩
+    simpa [h] using hr
+
+/-- Non-vacuity: the exits of `execute`, one each — `-l`; a missing table file; no product; `-r` on a directory
+whose table files do not include the product asked for (the wrapper prints `false`, status 4); `-j -S 2`;
+`-r DIR PRODUCT VERSION` with an undeclared version; an `EupsException`; a successful run. -/
+example :
+    let p : Str := Str.ofString "p0"
+    (runCli { list := true, args := [p] } {} (.returned [])) = ⟨none, 2⟩ ∧
+    (runCli { tablefile := some (Str.ofString "/x/p0.table"), args := [p] } {} (.returned [])) = ⟨none, 3⟩ ∧
+    (runCli {} {} (.returned [])) = ⟨none, 3⟩ ∧
+    (runCli { productDir := some (Str.ofString "/d"), args := [Str.ofString "other"] }
+        { upsIsDir := true, tables := [p] } (.returned [])) = ⟨some (Str.ofString "false\n"), 4⟩ ∧
+    (runCli { nodepend := true, maxDepth := 2, args := [p] } {} (.returned [])) = ⟨none, 3⟩ ∧
+    (runCli { productDir := some (Str.ofString "/d"), args := [p, Str.ofString "9.9"] }
+        { upsIsDir := true, tables := [p] } (.returned [])) = ⟨none, 3⟩ ∧
+    (runCli { args := [p] } {} .eupsException) = ⟨some (Str.ofString "false\n"), 1⟩ ∧
+    (runCli { tablefile := some (Str.ofString "/d/ups/p0.table") } { tablefileExists := true }
+        (.returned [Str.ofString "export A=1", Str.ofString "unset B"])) = ⟨some (Str.ofString "export A=1;\nunset B\n"), 0⟩ ∧
+    stem (basename (Str.ofString "/d/ups/p0.v1.table")) = Str.ofString "p0.v1" := by
+  decide
+
 end EupsModel.C05
